@@ -137,9 +137,27 @@ macro_rules! with_cell {
                 }
                 Cell::Dur(s, us) => $f!(Some(Duration::new(*s, *us * 1000))),
                 Cell::Myc(v) => $f!(Some(mk_myc(v))),
-                Cell::Null(_) | Cell::Some(_) => $f!(None::<u8>),
+                Cell::Null(_) | Cell::Some(_) | Cell::Ref(_) => $f!(None::<u8>),
             },
             Cell::Myc(v) => $f!(mk_myc(v)),
+            Cell::Ref(inner) => match &**inner {
+                Cell::I64(v) => $f!(&*v),
+                Cell::VecBytes(b) => {
+                    let v = b.to_vec();
+                    $f!(&v)
+                }
+                Cell::Some(x) => match &**x {
+                    Cell::I64(v) => {
+                        let o = Some(*v);
+                        $f!(&o)
+                    }
+                    _ => $f!(&None::<i64>),
+                },
+                _ => {
+                    let o = None::<i64>;
+                    $f!(&o)
+                }
+            },
         }
     };
 }
